@@ -14,6 +14,7 @@ import (
 // one MCSrcPos case
 type unitCase struct {
 	Shape  string              `json:"shape"`
+	Bom    int                 `json:"bom"` // 1: the file starts with a byte order mark (not part of text / bnd)
 	Text   []string            `json:"text"`
 	NLines int                 `json:"nlines"`
 	Unit   [][]json.RawMessage `json:"unit"` // <<name, start boundary, toklen, starts, comment, error>>
@@ -38,6 +39,7 @@ type unitStats struct {
 	Cases, Checks, DirectChecks, ItemsMatched, ExpectedStarts, MissingStarts int
 	ErrorsChecked, NodesChecked, MidCharSkipped, ColUndefinedSkipped         int
 	CasesWithLexError, CasesWithNodes, EmptyASTs, OrphanComments, NonTrivial int
+	CasesWithBOM                                                             int
 }
 
 func runUnits(in *bufio.Scanner, out *bufio.Writer, noRef bool) error {
@@ -234,7 +236,12 @@ func runUnits(in *bufio.Scanner, out *bufio.Writer, noRef bool) error {
 		flush("direct:")
 
 		// (B) the lexer's line table: parse, then every token, comment, error and node
-		o := doParse(data, false)
+		input := data
+		if c.Bom == 1 {
+			input = withBOM(data)
+			st.CasesWithBOM++
+		}
+		o := doParse(input, false)
 		if o.panicked {
 			report("parse:panic", o.site+": "+o.panicMsg)
 			continue
@@ -338,7 +345,11 @@ func runUnits(in *bufio.Scanner, out *bufio.Writer, noRef bool) error {
 			}
 			return nil
 		}})
-		flush("")
+		if c.Bom == 1 {
+			flush("bom:")
+		} else {
+			flush("")
+		}
 		if nodes > 2 {
 			st.CasesWithNodes++
 		}
